@@ -226,7 +226,8 @@ Qed.
 Lemma last_app_ne {A} (a b : list A) d : b <> [] -> last (a ++ b) d = last b d.
 Proof.
   intros Hb. induction a as [|x a IH]; [reflexivity|].
-  cbn [app]. destruct (a ++ b) eqn:E; [destruct a; cbn in E; congruence|]. cbn [last]. rewrite <- E. exact IH.
+  cbn [app]. remember (a ++ b) as l eqn:E. destruct l as [|z l']; [destruct a; cbn in E; congruence|].
+  change (last (x :: z :: l') d) with (last (z :: l') d). exact IH.
 Qed.
 (* a row cut in two: the left part sees the head of the right part, the right part sees the
    last element of the left part *)
@@ -240,7 +241,8 @@ Proof.
     cbn [stencil]. change ((y :: a') ++ b) with (y :: a' ++ b). cbn iota.
     change (y :: a' ++ b) with ((y :: a') ++ b).
     rewrite IH by (assumption || discriminate).
-    cbn [app]. f_equal. f_equal. cbn [last]. reflexivity.
+    cbn [app]. f_equal. f_equal. change (last (x :: y :: a') p) with (last (y :: a') p).
+    f_equal. apply last_default. discriminate.
 Qed.
 Lemma firstn_stencil_app {A B} (f : A -> A -> A -> B) a b p n : b <> [] ->
   firstn (length a) (stencil f p (a ++ b) n) = stencil f p a (hd n b).
@@ -264,13 +266,15 @@ Proof.
     rewrite Hall. reflexivity.
   - assert (Hblk : firstn V row <> []).
     { destruct row; [congruence|]. destruct V; [lia|]. discriminate. }
-    rewrite IH.
-    + rewrite <- (firstn_skipn V row) at 3 4. rewrite Hs.
-      rewrite stencil_app by (assumption || discriminate).
-      cbn [hd]. f_equal. f_equal.
-      rewrite last_app_ne by discriminate. apply last_default. discriminate.
-    + assert (length (skipn V row) <= length row)%nat by (rewrite skipn_length; lia). rewrite Hs in *. lia.
-    + discriminate.
+    assert (Hlen : (length (n :: rest) < fu)%nat).
+    { assert (Hk : length (skipn V row) = (length row - V)%nat) by apply skipn_length. rewrite Hs in Hk.
+      destruct row; [congruence|]. cbn [length] in *. lia. }
+    rewrite IH by (assumption || discriminate).
+    assert (Hrow : row = firstn V row ++ n :: rest) by (rewrite <- Hs; symmetry; apply firstn_skipn).
+    set (blk := firstn V row) in *. clearbody blk. subst row. clear Hs Hf Hne.
+    rewrite stencil_app by (assumption || discriminate).
+    cbn [hd]. f_equal. f_equal.
+    rewrite last_app_ne by discriminate. apply last_default. discriminate.
 Qed.
 
 (* padding: the valid columns followed by a copy of the last valid one and anything *)
@@ -302,27 +306,27 @@ Proof.
 Qed.
 Lemma last_firstn_nth (buf : list Z) w d : (1 <= w <= length buf)%nat -> last (firstn w buf) d = nth (w - 1) buf d.
 Proof.
-  revert buf. induction w as [|w IH]; intros buf H; [lia|].
-  destruct buf as [|x buf]; [cbn in H; lia|].
-  destruct w as [|w'].
-  - reflexivity.
-  - cbn [firstn]. destruct buf as [|y buf']; [cbn in H; lia|].
-    change (last (x :: firstn (S w') (y :: buf')) d) with (last (firstn (S w') (y :: buf')) d).
-    rewrite IH by (cbn in *; lia). replace (S (S w') - 1)%nat with (S w') by lia.
-    replace (S w' - 1)%nat with w' by lia. reflexivity.
+  revert w. induction buf as [|x t IH]; intros w H; [cbn in H; lia|].
+  destruct w as [|[|w'']]; [lia | reflexivity |].
+  destruct t as [|y t']; [cbn in H; lia|].
+  change (firstn (S (S w'')) (x :: y :: t')) with (x :: y :: firstn w'' t').
+  change (last (x :: y :: firstn w'' t') d) with (last (y :: firstn w'' t') d).
+  change (y :: firstn w'' t') with (firstn (S w'') (y :: t')).
+  rewrite IH by (cbn in *; lia).
+  replace (S (S w'') - 1)%nat with (S (S w'' - 1)) by lia. reflexivity.
 Qed.
 Lemma kernel_row_shape w V buf : (0 < V)%nat -> (1 <= w)%nat -> (roundup w V <= length buf)%nat ->
   let valid := firstn w buf in
   let row := firstn (roundup w V) (dummy w V buf) in
-  length valid = w /\ valid <> [] /\ (row = valid \/ exists g, row = valid ++ last valid 0 :: g).
+  length valid = w /\ valid <> [] /\ (((w mod V)%nat = 0%nat /\ row = valid) \/ ((w mod V)%nat <> 0%nat /\ exists g, row = valid ++ last valid 0 :: g)).
 Proof.
   intros HV Hw Hlen valid row.
   assert (Lv : length valid = w).
   { unfold valid. rewrite firstn_length. destruct (roundup_cases w V HV) as [[_ E]|[_ E]]; lia. }
   split; [exact Lv|]. split; [destruct valid; [cbn in Lv; lia|discriminate]|].
   unfold row, dummy. destruct (roundup_cases w V HV) as [[Hm E]|[Hm E]].
-  - left. rewrite E. apply Nat.eqb_eq in Hm. rewrite Hm. reflexivity.
-  - right. apply Nat.eqb_neq in Hm. rewrite Hm.
+  - left. split; [assumption|]. rewrite E. apply Nat.eqb_eq in Hm. rewrite Hm. reflexivity.
+  - right. split; [assumption|]. apply Nat.eqb_neq in Hm. rewrite Hm.
     rewrite firstn_app. rewrite firstn_all2 by (fold valid; lia). fold valid. rewrite Lv.
     replace (roundup w V - w)%nat with (S (roundup w V - w - 1)) by lia.
     cbn [app firstn]. eexists. f_equal. f_equal.
@@ -426,7 +430,7 @@ Proof.
   assert (Hvb : Forall byte valid) by (apply firstn_bytes; assumption).
   rewrite c_h2v1_fancy_stencil by (try assumption; lia).
   unfold asm_h2v1_fancy. rewrite <- Lv at 1.
-  destruct Hshape as [E | [g E]]; rewrite E.
+  destruct Hshape as [[_ E] | [_ [g E]]]; rewrite E.
   - rewrite fancy_exact by assumption.
     apply (stencil_ext byte); try assumption.
     + intros. apply h2v1_lane_f_eq; assumption.
@@ -438,3 +442,134 @@ Proof.
     + apply bytes_hd; [assumption | apply byte0].
     + apply bytes_last; [assumption | apply byte0].
 Qed.
+
+(* ---- h2v2 ---- *)
+Lemma map2_app {A B C} (f : A -> B -> C) a a' b b' : length a = length b ->
+  map2 f (a ++ a') (b ++ b') = map2 f a b ++ map2 f a' b'.
+Proof.
+  revert b. induction a as [|x a IH]; intros [|y b] H; cbn in H; try lia; [reflexivity|].
+  unfold map2 in *. cbn [app combine map fst snd]. f_equal. apply IH. lia.
+Qed.
+Lemma map2_length {A B C} (f : A -> B -> C) a b : length a = length b -> length (map2 f a b) = length a.
+Proof. intros. unfold map2. rewrite map_length, combine_length. lia. Qed.
+Lemma map2_last {A B C} (f : A -> B -> C) a : forall b da db dc, length a = length b -> a <> [] ->
+  last (map2 f a b) dc = f (last a da) (last b db).
+Proof.
+  induction a as [|x a IH]; intros [|y b] da db dc H Hne; cbn in H; try lia; [congruence|].
+  destruct a as [|x' a']; destruct b as [|y' b']; cbn in H; try lia; [reflexivity|].
+  change (map2 f (x :: x' :: a') (y :: y' :: b')) with (f x y :: map2 f (x' :: a') (y' :: b')).
+  change (last (x :: x' :: a') da) with (last (x' :: a') da). change (last (y :: y' :: b') db) with (last (y' :: b') db).
+  rewrite <- (IH (y' :: b') da db dc) by (cbn; lia || discriminate).
+  change (map2 f (x' :: a') (y' :: b')) with (f x' y' :: map2 f a' b'). reflexivity.
+Qed.
+Lemma map2_Forall {A B C} (P : A -> Prop) (Q : B -> Prop) (R : C -> Prop) (f : A -> B -> C) a b :
+  (forall x y, P x -> Q y -> R (f x y)) -> Forall P a -> Forall Q b -> Forall R (map2 f a b).
+Proof.
+  intros H Ha. revert b. induction Ha; intros b Hb; [constructor|]. destruct Hb; [constructor|].
+  unfold map2 in *. cbn. constructor; [apply H; assumption | apply IHHa; assumption].
+Qed.
+Lemma map2_ext {A B C} (P : A -> Prop) (Q : B -> Prop) (f g : A -> B -> C) a b :
+  (forall x y, P x -> Q y -> f x y = g x y) -> Forall P a -> Forall Q b -> map2 f a b = map2 g a b.
+Proof.
+  intros H Ha. revert b. induction Ha; intros b Hb; [reflexivity|]. destruct Hb; [reflexivity|].
+  unfold map2 in *. cbn. f_equal; [apply H; assumption | apply IHHa; assumption].
+Qed.
+
+Lemma colsum_eq U a b : up_consts_ok U -> byte a -> byte b -> asm_colsum U a b = a * 3 + b /\ sum16 (a * 3 + b).
+Proof.
+  intros (_ & _ & E3 & _) Ha Hb. unfold byte, sum16 in *. unfold asm_colsum, pmullw, paddw. rewrite E3.
+  rewrite (w16_small (a * 3)) by lia. rewrite w16_small by lia. lia.
+Qed.
+
+Lemma c_h2v2_mid_stencil rest : forall lastc this, sum16 this -> Forall sum16 rest ->
+  c_h2v2_mid lastc this rest = stencil g2 lastc (this :: rest) (last (this :: rest) 0).
+Proof.
+  destruct c_fancy_values as (_ & _ & _ & _ & _ & M & L & _).
+  induction rest as [|nxt r IH]; intros lastc this Ht Hr.
+  - cbn [c_h2v2_mid stencil last]. rewrite L. cbn [z6 nth]. unfold g2. f_equal. f_equal.
+    unfold sum16 in Ht. unfold sh. rewrite !shr_div by lia. change (2 ^ 4) with 16. f_equal. f_equal. lia.
+  - inversion Hr; subst. cbn [c_h2v2_mid]. rewrite IH by assumption. rewrite M. cbn [z6 nth].
+    change (last (this :: nxt :: r) 0) with (last (nxt :: r) 0). cbn [stencil]. reflexivity.
+Qed.
+Lemma c_h2v2_fancy_stencil in0 in1 : (2 <= length in0)%nat -> length in0 = length in1 -> Forall byte in0 -> Forall byte in1 ->
+  let cs := map2 (fun a b => a * 3 + b) in0 in1 in
+  c_h2v2_fancy in0 in1 = stencil g2 (hd 0 cs) cs (last cs 0).
+Proof.
+  destruct c_fancy_values as (_ & _ & _ & VM & F & _).
+  intros Hl Hll H0 H1 cs.
+  assert (Hcs : map2 c_colsum in0 in1 = cs).
+  { unfold cs. apply (map2_ext byte byte); try assumption. intros. unfold c_colsum. rewrite VM. reflexivity. }
+  assert (Hs : Forall sum16 cs).
+  { unfold cs. apply (map2_Forall byte byte); try assumption. intros x y Hx Hy. unfold byte, sum16 in *. lia. }
+  assert (Lc : length cs = length in0) by (unfold cs; apply map2_length; assumption).
+  unfold c_h2v2_fancy. rewrite Hcs.
+  destruct cs as [|s0 [|s1 r]]; try (cbn in Lc; lia).
+  inversion Hs as [|? ? S0 Hs']; subst. inversion Hs' as [|? ? S1 Hr]; subst.
+  rewrite c_h2v2_mid_stencil by assumption. rewrite F. cbn [z6 nth hd].
+  change (last (s0 :: s1 :: r) 0) with (last (s1 :: r) 0). cbn [stencil]. f_equal.
+  unfold g2. f_equal. unfold sum16 in S0. unfold sh. rewrite !shr_div by lia. change (2 ^ 4) with 16. f_equal. f_equal. lia.
+Qed.
+
+Lemma sum16_0 : sum16 0. Proof. unfold sum16. lia. Qed.
+Lemma sums_last l d : Forall sum16 l -> sum16 d -> sum16 (last l d).
+Proof. intros H Hd. induction H; [assumption|]. destruct l; [assumption|]. exact IHForall. Qed.
+Lemma sums_hd l d : Forall sum16 l -> sum16 d -> sum16 (hd d l).
+Proof. intros H Hd. destruct H; assumption. Qed.
+
+Theorem h2v2_fancy_eq U V w buf0 buf1 :
+  up_consts_ok U -> (0 < V)%nat -> (3 <= w)%nat ->
+  (roundup w V <= length buf0)%nat -> (roundup w V <= length buf1)%nat -> Forall byte buf0 -> Forall byte buf1 ->
+  asm_h2v2_fancy U V w buf0 buf1 = c_h2v2_fancy (firstn w buf0) (firstn w buf1).
+Proof.
+  intros HU HV Hw Hl0 Hl1 Hb0 Hb1.
+  destruct (kernel_row_shape w V buf0 HV ltac:(lia) Hl0) as (L0 & N0 & S0).
+  destruct (kernel_row_shape w V buf1 HV ltac:(lia) Hl1) as (L1 & N1 & S1).
+  set (v0 := firstn w buf0) in *. set (v1 := firstn w buf1) in *.
+  assert (B0 : Forall byte v0) by (apply firstn_bytes; assumption).
+  assert (B1 : Forall byte v1) by (apply firstn_bytes; assumption).
+  rewrite c_h2v2_fancy_stencil by (try assumption; lia).
+  set (cs := map2 (fun a b => a * 3 + b) v0 v1).
+  assert (Hcs : map2 (asm_colsum U) v0 v1 = cs).
+  { apply (map2_ext byte byte); try assumption. intros x y Hx Hy. apply colsum_eq; assumption. }
+  assert (Hs : Forall sum16 cs).
+  { unfold cs. apply (map2_Forall byte byte); try assumption. intros x y Hx Hy. unfold byte, sum16 in *. lia. }
+  assert (Lc : length cs = w) by (unfold cs; rewrite map2_length; lia).
+  assert (Nc : cs <> []) by (destruct cs; [cbn in Lc; lia | discriminate]).
+  unfold asm_h2v2_fancy. rewrite <- Lc at 1.
+  destruct S0 as [[M0 E0] | [M0 [g0 E0]]]; destruct S1 as [[M1 E1] | [M1 [g1 E1]]]; try congruence; rewrite E0, E1.
+  - rewrite Hcs. rewrite fancy_exact by assumption.
+    apply (stencil_ext sum16); try assumption.
+    + intros. apply h2v2_lane_f_eq; assumption.
+    + apply sums_hd; [assumption | apply sum16_0].
+    + apply sums_last; [assumption | apply sum16_0].
+  - rewrite map2_app by lia. rewrite Hcs.
+    change (map2 (asm_colsum U) (last v0 0 :: g0) (last v1 0 :: g1)) with
+      (asm_colsum U (last v0 0) (last v1 0) :: map2 (asm_colsum U) g0 g1).
+    replace (asm_colsum U (last v0 0) (last v1 0)) with (last cs 0).
+    2:{ rewrite <- Hcs. apply map2_last; [lia | assumption]. }
+    rewrite fancy_padded by assumption.
+    apply (stencil_ext sum16); try assumption.
+    + intros. apply h2v2_lane_f_eq; assumption.
+    + apply sums_hd; [assumption | apply sum16_0].
+    + apply sums_last; [assumption | apply sum16_0].
+Qed.
+
+(* plain (box) upsampling *)
+Theorem h2v1_plain_eq V row : asm_h2v1_plain V row = c_h2v1_plain row.
+Proof. unfold asm_h2v1_plain, c_h2v1_plain. induction row as [|a t IH]; [reflexivity|]. cbn. rewrite IH. reflexivity. Qed.
+
+(* non-vacuity: a 19-column row (not a multiple of 16), with garbage after the valid part *)
+Example fancy_nonvacuous :
+  let buf := [10; 200; 30; 255; 0; 7; 90; 91; 92; 1; 2; 3; 250; 251; 252; 17; 18; 19; 20; 99; 98; 97; 96; 95; 94; 93; 92; 91; 90; 89; 88; 87] in
+  asm_h2v1_fancy jdsample_sse2_consts 16 19 buf = c_h2v1_fancy (firstn 19 buf) /\
+  asm_h2v1_fancy jdsample_avx2_consts 32 19 buf = c_h2v1_fancy (firstn 19 buf) /\
+  flat2 (c_h2v1_fancy (firstn 3 buf)) = [10; 58; 152; 158; 72; 30] /\
+  asm_h2v2_fancy jdsample_sse2_consts 16 19 buf (rev buf) = c_h2v2_fancy (firstn 19 buf) (firstn 19 (rev buf)).
+Proof. vm_compute. repeat split; reflexivity. Qed.
+Example down_nonvacuous :
+  let row := [1; 2; 3; 4; 5; 6; 7; 8; 9; 10; 11; 12; 13; 250; 251; 252; 253; 254; 255; 0; 0; 0; 0; 0; 0; 0; 0; 0; 0; 0; 0; 0;
+              0; 0; 0; 0; 0; 0; 0; 0; 0; 0; 0; 0; 0; 0; 0; 0] in
+  asm_h2v1_downsample jcsample_sse2_consts 16 19 16 row = c_h2v1_downsample 19 16 row /\
+  asm_h2v1_downsample jcsample_avx2_consts 32 19 24 row = c_h2v1_downsample 19 24 row /\
+  c_h2v1_downsample 19 16 row = [1; 4; 5; 8; 9; 12; 131; 252; 253; 255; 255; 255; 255; 255; 255; 255].
+Proof. vm_compute. repeat split; reflexivity. Qed.
